@@ -299,6 +299,41 @@ def run_component(name, pid, seed):
             d_fresh = dict(fresh.next_state_transit_time_reward_dist(s0, ob).items())
             out["second-option"] = d_fresh
             out["__order_independent__"] = (digest(d_used) == digest(d_fresh))
+        # numeric state labels (a noisy walk on 0..6, a user-written wandering option): the caller may spell the label 3, 3.0 or
+        # numpy.int64(3); what a query returns must not depend on which spellings were asked about before it
+        from msdm.core.mdp.mdp import MarkovDecisionProcess
+        from msdm.core.mdp.policy import FunctionalPolicy
+        from msdm.core.distributions import DictDistribution
+        from msdm.core.semimdp.option import Option
+
+        class Walk(MarkovDecisionProcess):
+            discount_rate = 0.95
+            def initial_state_dist(self_): return DictDistribution({3: 1.0})
+            def actions(self_, s): return (-1, 1)
+            def next_state_dist(self_, s, a):
+                return DictDistribution({min(max(s + a, 0), 6): 0.7}) | DictDistribution({min(max(s - a, 0), 6): 0.3})
+            def reward(self_, s, a, ns): return -1.0
+            def is_absorbing(self_, s): return s == 6
+
+        class Wander(Option):
+            def __init__(self_):
+                self_.name, self_.max_steps = "wander", 10000
+                self_.policy = FunctionalPolicy(lambda s: DictDistribution({-1: 0.5, 1: 0.5}))
+            def is_initial(self_, s): return True
+            def is_terminal(self_, s): return s in (0, 6)
+        wk, wo = Walk(), Wander()
+        r_ = random.Random(f"C13-spell-{pid}-{seed}")
+        spell = [3, 3.0, np.int64(3)]
+        r_.shuffle(spell)
+        usedw = SemiMarkovDecisionProcess(mdp=wk, options=[wo], n_option_simulations=5, seed=seed)
+        for lab in spell[:-1]:
+            usedw.next_state_transit_time_reward_dist(lab, wo)
+        du = dict(usedw.next_state_transit_time_reward_dist(spell[-1], wo).items())
+        df = dict(SemiMarkovDecisionProcess(mdp=wk, options=[wo], n_option_simulations=5, seed=seed)
+                  .next_state_transit_time_reward_dist(spell[-1], wo).items())
+        out["numeric-labels"] = {repr(k): v for k, v in df.items()}
+        if digest(du) != digest(df):
+            out["__order_independent__"] = False
         return out
     if name == "implicit":
         from msdm.core.distributions import ImplicitDistribution
